@@ -102,7 +102,7 @@ class OnionWorld:
         for name in ("create_circuit", "send_data", "remove_circuit", "exit_return", "vanish", "node_remove_relay",
                      "node_remove_exit", "expect_quiet", "deliver", "lose", "dup", "tamper", "tamper_at", "tamper_header",
                      "splice", "inject", "adv_create", "adv_plain", "forge_destroy", "mangle_answer", "link_e2e",
-                     "send_e2e", "rp_forge", "transports_ready", "transport4_ready", "send_test", "join_resume", "cancel_ready", "outside_nested"):
+                     "send_e2e", "rp_forge", "transports_ready", "transport4_ready", "send_test", "join_resume", "cancel_ready", "outside_nested", "rp_reflect"):
             setattr(self, name, self._stepper(getattr(self, name)))
 
     def _stepper(self, fn):
@@ -198,7 +198,7 @@ class OnionWorld:
                     "goal": ci.goal_hops, "hops": [self.name_of_peer(h.peer) for h in ci.hops],
                     "unv": self.name_of_peer(ci.unverified_hop.peer) if ci.unverified_hop else "none",
                     "via": self.name_of_addr(ci.hop.address) if (ci.hops or ci.unverified_hop) else "none",
-                    "act": int(round((ci.last_activity - self.t0) * MS)),
+                    "act": int(round((ci.last_activity - self.t0) * MS)) if ci.hops else 0,
                     "closing": ci.state == "CLOSING", "early": ci.relay_early_count,
                     "ctype": {"RP_DOWNLOADER": "RPD", "RP_SEEDER": "RPS"}.get(ci.ctype, ci.ctype),
                     "hs": ci.hs_session_keys is not None}]
@@ -451,6 +451,22 @@ class OnionWorld:
         dg = self.net.inject(self.nodes[rp].address, entry.hop.address, self._cell_bytes(entry.circuit_id, False, False, blob))
         self.net.inflight.append(dg)
         return self.log("RPForge", rp=rp, cid=spec_cid)
+
+    def rp_reflect(self, rp, seq):
+        """the rendezvous point turns a cell of one half of the link round instead of passing it on (it holds the hop keys of
+        both halves): hop layer off, hop layer of the way back on, sent back down the circuit it arrived on"""
+        import struct
+        d = self.net.inflight[self.find(seq)]
+        ov = self.ov[rp]
+        cid_real = struct.unpack_from("!I", d.data, 23)[0]
+        entry = ov.relay_from_to[cid_real]
+        back = ov.relay_from_to[entry.circuit_id]
+        content = entry.hop.keys.decrypt_str(bytes(d.data[29:]), 0)
+        blob = entry.hop.keys.encrypt_str(content, 1)
+        d.data = self._cell_bytes(cid_real, False, False, blob)
+        d.src, d.dst = self.nodes[rp].address, (back.hop.address[0], back.hop.address[1])
+        d.sender = self.nodes[rp].sim_endpoint
+        return self.log("RPReflect", rp=rp, id=seq)
 
     def pending_sockets(self):
         """exit sockets (node name, spec cid) whose outside transports are still being opened"""
